@@ -272,10 +272,14 @@ PROPS = {
                       'treadmill.services.presence_service:PresenceResourceService.on_delete_request'],
         'replay': 'c17.py',
         'assumptions': [
-            'REQUEST-GRANULAR: every clause is proved for an arbitrary ZooKeeper store at the start of one request, so any '
-            'interleaving of whole requests of two sessions (and session expiry between requests) is covered; another '
-            'session acting between the read (get_with_metadata) and the write (update / ensure_deleted) inside one '
-            'request is NOT covered (ZooKeeper offers no compare-owner-and-delete; the real code has the same window)',
+            'every clause is proved for an arbitrary ZooKeeper store at the start of one request, so any interleaving of '
+            'whole requests of two sessions (and expiry between requests) is covered; INSIDE a request the environment '
+            'is modelled as: before every ZooKeeper call any node may go away (its owner deleted it, its session expired) '
+            '- which reaches e.g. NodeExistsError followed by NoNodeError; a foreign node being CREATED or rewritten '
+            'between the read and the write of one request is not modelled (ZooKeeper offers no compare-owner-and-delete; '
+            'the real code has the same window); because going away cannot be told from a deletion in a two-state '
+            'postcondition, deletions and updates are pinned by call-site clauses: they are reached only for a node that '
+            'is not an existing foreign node',
             'ZooKeeper dependency contracts (assumed): zkutils.create fails with NodeExistsError iff the node exists and '
             'makes an ephemeral node owned by the creating session; get_with_metadata returns content and owner session '
             'or raises NoNodeError; update changes the content only; ensure_deleted removes the node (children of '
